@@ -11,9 +11,7 @@ use icy_engine::{ansi, BitFont, Buffer, BufferParser, Caret, Layer, TextPane};
 use std::path::Path;
 use std::time::Duration;
 
-fn is_scalar(v: u32) -> bool {
-    v <= 0xD7FF || (0xE000..=0x10FFFF).contains(&v)
-}
+use crate::unibounds::{block_samples, boundary_values, class_of, is_scalar, octave_samples};
 
 struct Verdict {
     obs: String,
@@ -35,7 +33,7 @@ fn scan_layer(layer: &Layer, site: &str, fails: &mut Vec<(String, String)>) {
     }
 }
 
-fn scan_buffer(buf: &Buffer, site: &str, fails: &mut Vec<(String, String)>) {
+pub(crate) fn scan_buffer(buf: &Buffer, site: &str, fails: &mut Vec<(String, String)>) {
     for l in &buf.layers {
         scan_layer(l, site, fails);
     }
@@ -68,7 +66,7 @@ fn scan_font(f: &BitFont, site: &str, fails: &mut Vec<(String, String)>) {
     }
 }
 
-fn feed(parser: &mut ansi::Parser, buf: &mut Buffer, caret: &mut Caret, chars: impl Iterator<Item = char>) -> Result<Option<String>, String> {
+pub(crate) fn feed(parser: &mut ansi::Parser, buf: &mut Buffer, caret: &mut Caret, chars: impl Iterator<Item = char>) -> Result<Option<String>, String> {
     // returns the SendString of the LAST character, or "err" marker
     let mut last: Result<Option<String>, String> = Ok(None);
     for c in chars {
@@ -81,7 +79,7 @@ fn feed(parser: &mut ansi::Parser, buf: &mut Buffer, caret: &mut Caret, chars: i
     last
 }
 
-fn term_buffer() -> (Buffer, Caret, ansi::Parser) {
+pub(crate) fn term_buffer() -> (Buffer, Caret, ansi::Parser) {
     let mut buf = Buffer::create((80, 25));
     buf.is_terminal_buffer = true;
     (buf, Caret::default(), ansi::Parser::default())
@@ -189,6 +187,8 @@ fn exec_case(case: &str) -> Verdict {
             scan_buffer(&buf, "parse_hex_macro_sequence", &mut fails);
             obs
         }
+        // macro table histories (text and hex macros): harness/src/unimacro.rs
+        "macro" => crate::unimacro::exec_macro(rest, &mut fails),
         // Layer::from_clipboard_data on arbitrary bytes
         "clip" => {
             let bytes = unhex(f[0]);
@@ -329,6 +329,20 @@ fn exec_case(case: &str) -> Verdict {
                 Err(_) => "panic".to_string(),
             }
         }
+        // BitFont::from_basic / create_8 on data of any length (the XBin/ADF/IDF loaders pass 256 glyphs; the API takes any slice)
+        "basic" | "create8" => {
+            let h: usize = f[0].parse().unwrap_or(1);
+            let n: usize = f[1].parse().unwrap_or(0);
+            let data = fill_bytes(n, f.get(2).and_then(|x| x.parse().ok()).unwrap_or(0));
+            let r = catch(std::panic::AssertUnwindSafe(|| if kind == "basic" { BitFont::from_basic(8, h as u8, &data) } else { BitFont::create_8("c", 8, h as u8, &data) }));
+            match r {
+                Ok(font) => {
+                    scan_font(&font, "glyphs_from_u8_data", &mut fails);
+                    font_obs(&font, true)
+                }
+                Err(_) => "panic".to_string(),
+            }
+        }
         // a font whose `length` field is set by hand (pub field): the loops over 0..length, one at a time or all
         "fontlen" => {
             let length: i32 = f[0].parse().unwrap_or(256);
@@ -390,12 +404,17 @@ fn model_op(case: &str) -> Option<String> {
     match kind {
         "fill" => Some(format!("uni fill {}", f[0])),
         "hexm" => Some(format!("uni hexmacro {}", if f[0].is_empty() { "-" } else { f[0] })),
+        "macro" => Some(format!("unimacro run {rest}")),
         "clip" => Some(format!("uni clip {}", f[0])),
         "icyc" => Some(format!("uni icyc {} {} {}", f[0], f[1], f[2])),
         "icyt" => Some(format!("uni lossy {}", f[0])),
         "utf8" => Some(format!("uni valid {}", f[0])),
         "psf1" | "psf2" | "raw" | "font" | "dcsfont" => Some(format!("font shape {} {}", kind, f.join(" "))),
         "fontlen" => Some(format!("font fontlen {}", f.join(" "))),
+        "basic" | "create8" => {
+            let n: usize = f[1].parse().unwrap_or(0);
+            Some(format!("font basic {} {}", f[0], hex(&fill_bytes(n, f.get(2).and_then(|x| x.parse().ok()).unwrap_or(0)))))
+        }
         _ => None,
     }
 }
@@ -405,9 +424,10 @@ fn death_key(case: &str) -> &'static str {
     match case.split(':').next().unwrap_or("") {
         "fill" => "fill_rectangular_area",
         "hexm" => "parse_hex_macro_sequence",
+        "macro" => "macro_table",
         "clip" => "from_clipboard_data",
         "icyc" | "icy" | "icyt" => "load_buffer",
-        "psf1" | "psf2" | "raw" | "font" | "dcsfont" => "glyphs_from_u8_data",
+        "psf1" | "psf2" | "raw" | "font" | "dcsfont" | "basic" | "create8" => "glyphs_from_u8_data",
         "fontlen" => match case.rsplit(':').next().unwrap_or("") {
             "u8" => "convert_to_u8_data",
             "psf2" => "to_psf2_bytes",
@@ -485,8 +505,22 @@ fn gen_cases(rng: &mut Rng, thorough: bool) -> Vec<String> {
     for _ in 0..120 * m {
         c.push(format!("fill:{}", interesting_u32(rng) & 0x7FFF_FFFF));
     }
+    // the whole boundary structure of the parameter space (harness/src/unibounds.rs): every (shifted, xor-ed) boundary ±1,
+    // powers of two, the ends; first/last/seeded member of every 0x800-aligned block below 0x200000; every octave above
+    for v in boundary_values(0x7FFF_FFFF) {
+        c.push(format!("fill:{v}"));
+    }
+    for v in block_samples(rng, if thorough { 6 } else { 1 }) {
+        c.push(format!("fill:{v}"));
+    }
+    for v in octave_samples(rng, 0x7FFF_FFFF, if thorough { 200 } else { 12 }) {
+        c.push(format!("fill:{v}"));
+    }
     if thorough {
         for v in (0xD700u32..0xE100).step_by(7) {
+            c.push(format!("fill:{v}"));
+        }
+        for v in (0x10_F000u32..0x12_0000).step_by(5) {
             c.push(format!("fill:{v}"));
         }
     }
@@ -524,6 +558,19 @@ fn gen_cases(rng: &mut Rng, thorough: bool) -> Vec<String> {
         let cps: Vec<u32> = cps.into_iter().filter(|x| *x != 0x1B).collect();
         c.push(format!("hexm:{}", if cps.is_empty() { "-".to_string() } else { cps.iter().map(|x| x.to_string()).collect::<Vec<_>>().join(",") }));
     }
+    // every hex digit's look-alikes under `ch as u8` (the parser truncates the character to its low byte before the table
+    // lookup): digit + k * 0x100 for the planes a truncation can come from, as first and as second digit
+    for d in b"0123456789ABCDEFabcdef" {
+        for k in [0x100u32, 0x200, 0xFF00, 0x1_0000, 0x10_FF00] {
+            let la = *d as u32 + k;
+            if !is_scalar(la) {
+                continue;
+            }
+            c.push(format!("hexm:{la},52,52,49"));
+            c.push(format!("hexm:52,{la},52,49"));
+            c.push(format!("hexm:52,49,{la},{la}"));
+        }
+    }
     // --- hex macros whose repeat groups reach the end of the macro space (records of 1..3 characters, one- and two-byte)
     for (k, n) in [16383u32, 16384, 20000, 32766, 32767, 32768, 10922, 10923, 8191, 8192, 99999, 2147483647].iter().enumerate() {
         for (j, recd) in ["E9", "41", "E941", "41E9", "E9E9", "C3A9", "80FF41", "7F80"].iter().enumerate() {
@@ -536,6 +583,8 @@ fn gen_cases(rng: &mut Rng, thorough: bool) -> Vec<String> {
             }
         }
     }
+    // --- macro table: text and hex macros, histories (harness/src/unimacro.rs)
+    c.extend(crate::unimacro::gen_macro_cases(rng, thorough));
     // --- clipboard records: all 16-bit classes
     for v in [0u16, 0x41, 0xD7FF, 0xD800, 0xDBFF, 0xDC00, 0xDFFF, 0xE000, 0xFFFD, 0xFFFF] {
         c.push(format!("clip:{}", clip_record(0, 0, 1, 1, &[(v, 0)], 0)));
@@ -555,6 +604,12 @@ fn gen_cases(rng: &mut Rng, thorough: bool) -> Vec<String> {
             c.push(format!("clip:{}", clip_record(0, 0, 1, 1, &[(v as u16, 0)], 0)));
         }
     }
+    // ALL 16-bit character fields, in every run: 256 records of 256 cells (one per high byte), rows of 256 and of 16
+    for hi in 0..256u32 {
+        let cells: Vec<(u16, u16)> = (0..256u32).map(|lo| ((hi << 8 | lo) as u16, 0)).collect();
+        let (w, h) = if hi % 2 == 0 { (256, 1) } else { (16, 16) };
+        c.push(format!("clip:{}", clip_record(0, 0, w, h, &cells, 0)));
+    }
     c.push("clip:01".into());
     c.push("clip:-".into());
     c.push("clip:00".into());
@@ -567,9 +622,44 @@ fn gen_cases(rng: &mut Rng, thorough: bool) -> Vec<String> {
     for _ in 0..60 * m {
         c.push(format!("icyc:{}:{}:{}", u8::from(rng.chance(1, 5)), rng.below(2), interesting_u32(rng)));
     }
+    // both decoders (first chunk, continuation chunk) over the whole boundary structure of the 32-bit field
+    for cont in 0..2 {
+        for v in boundary_values(u32::MAX) {
+            c.push(format!("icyc:0:{cont}:{v}"));
+        }
+        for v in block_samples(rng, if thorough { 3 } else { 1 }) {
+            c.push(format!("icyc:0:{cont}:{v}"));
+        }
+        for v in octave_samples(rng, u32::MAX, if thorough { 100 } else { 8 }) {
+            c.push(format!("icyc:0:{cont}:{v}"));
+        }
+        for v in (0..=255u32).step_by(if thorough { 1 } else { 5 }) {
+            c.push(format!("icyc:1:{cont}:{}", v + 256 * rng.below(1 << 24) as u32));
+        }
+    }
     // --- IcyDraw strings
     for t in ["-", "41", "c3a9", "ff", "c0af", "eda080", "edbfbf", "f4908080", "f0288cbc", "e28281", "e282", "f09f9880", "f09f98", "41c2", "80", "c328", "efbfbd", "efbfbe", "f8888080", "e0809f", "f0808080", "4100ff00"] {
         c.push(format!("icyt:{t}"));
+    }
+    // the boundary structure of UTF-8 itself: every non-ASCII lead byte x the edges of every second-byte range x tails
+    // (a hand-written validity test in place of from_utf8_lossy has its wrong bound at one of these)
+    for (i, b) in (0x80u8..=0xFF).enumerate() {
+        for (j, c1) in [None, Some(0x00u8), Some(0x7F), Some(0x80), Some(0x8F), Some(0x90), Some(0x9F), Some(0xA0), Some(0xBF), Some(0xC0), Some(0xFF)].iter().enumerate() {
+            for (k, tail) in [&[][..], &[0x80][..], &[0xBF, 0xBF][..], &[0x80, 0x80, 0x80][..], &[0x41][..]].iter().enumerate() {
+                let mut v = vec![b];
+                v.extend(c1.iter());
+                v.extend(tail.iter());
+                match (i + j + k) % 3 {
+                    0 => {}
+                    1 => v.insert(0, 0x41),
+                    _ => v.push(0x41),
+                }
+                c.push(format!("utf8:{}", hex(&v)));
+                if thorough || (i + j + k) % 2 == 0 {
+                    c.push(format!("icyt:{}", hex(&v)));
+                }
+            }
+        }
     }
     for _ in 0..80 * m {
         let n = rng.below(24) as usize;
@@ -588,7 +678,19 @@ fn gen_cases(rng: &mut Rng, thorough: bool) -> Vec<String> {
     for (len, cs) in [(0xD800u32, 0u32), (0xD801, 0), (0xE000, 0), (70000, 0), (131072, 0)] {
         c.push(format!("psf2:0:32:{len}:{cs}:8:8:0:1"));
     }
-    for l in [0i32, 1, 256, 512, 0xD7FF, 0xD800, 0xD801, 0xE000, 0xE001, 70000, 131072, -1] {
+    // every loader sees the glyph counts around both ends of the surrogate block (the glyph index is the number that
+    // becomes a `char`): PSF2 (header-announced count, one- and two-byte glyphs), PSF2 through the DCS, from_basic / create_8
+    for n in [0xD7FFusize, 0xD800, 0xD801, 0xDFFF, 0xE000, 0xE001, 0x1_0000, 0x1_FFFF, 0x2_0000] {
+        c.push(format!("psf2:0:32:{n}:1:1:8:{n}:{}", rng.below(100)));
+        if n <= 0xE001 {
+            c.push(format!("psf2:0:32:{n}:2:2:8:{}:{}", 2 * n, rng.below(100)));
+            c.push(format!("dcsfont:psf2:0:32:{n}:1:1:8:{n}:{}", rng.below(100)));
+            c.push(format!("basic:1:{n}:{}", rng.below(100)));
+            c.push(format!("create8:1:{n}:{}", rng.below(100)));
+            c.push(format!("{}:2:{}:{}", if n % 2 == 0 { "basic" } else { "create8" }, 2 * n + 1, rng.below(100)));
+        }
+    }
+    for l in [0i32, 1, 256, 512, 0xD7FF, 0xD800, 0xD801, 0xDFFF, 0xE000, 0xE001, 70000, 131071, 131072, -1] {
         c.push(format!("fontlen:{l}:{}:{}", rng.range(1, 16), rng.pick(&["all", "ck", "u8", "psf2"])));
     }
     for _ in 0..30 * m {
@@ -718,6 +820,12 @@ pub fn run(run: &mut Run, seed: u64, thorough: bool, replay: Option<&str>, corpu
     for (case, res) in cases.iter().zip(results.iter()) {
         let kind = case.split(':').next().unwrap_or("?");
         run.count(kind);
+        // distribution of the numbers that flow into a conversion, by class of the scalar-range structure
+        if kind == "fill" || kind == "icyc" {
+            if let Some(v) = case.rsplit(':').next().and_then(|x| x.parse::<u32>().ok()) {
+                run.count(&format!("{kind}:value:{}", class_of(v)));
+            }
+        }
         match res {
             ChildResult::Line(l) => {
                 let mut it = l.splitn(2, '\t');
@@ -729,7 +837,19 @@ pub fn run(run: &mut Run, seed: u64, thorough: bool, replay: Option<&str>, corpu
                     run.evaluations += 1;
                 }
                 let w = obs.split([' ', ':', '=']).next().unwrap_or("");
-                run.count(&format!("{kind}:{}", if ["ok", "err", "none", "panic", "valid", "invalid", "nolayer", "ck", "u8", "psf2"].contains(&w) { w } else { "other" }));
+                if kind == "macro" {
+                    // outcome pattern of the history and the final byte of every stored body (by high nibble)
+                    let w = if w.contains(',') { if w.contains("err") { "mixed" } else { "ok" } } else { w };
+                    run.count(&format!("macro:{w}"));
+                    for t in obs.split(' ').skip(1) {
+                        if let Some((_, h)) = t.split_once('=') {
+                            run.count(&format!("macro:stored-last-byte:{}", if h.len() >= 2 && h != "-" { format!("{}x", &h[h.len() - 2..h.len() - 1]) } else { "empty".to_string() }));
+                        }
+                    }
+                } else
+                {
+                    run.count(&format!("{kind}:{}", if ["ok", "err", "none", "panic", "valid", "invalid", "nolayer", "ck", "u8", "psf2"].contains(&w) { w } else { "other" }));
+                }
                 if fails != "-" {
                     for f in fails.split(";;") {
                         let (k, w) = f.split_once('=').unwrap_or((f, ""));
